@@ -436,6 +436,101 @@ class AllocatorSpec(Spec):
         return r["failures"][0] if r["failures"] else None
 
 
+# ------------------------------------------------------------------ HasRegisterConstraints.allocate_registers (the per-op step of the backward walk)
+RALLOC = "xdsl/backend/register_allocatable.py"
+RCLASS = z3.Function("register_class_of_type", I, I)  # the pool a register type belongs to
+
+
+class AllocateRegisters(Spec):
+    """
+    HasRegisterConstraints.allocate_registers(allocator), for an op with a CONCRETE number of in / out / inout values (every loop is unrolled:
+    bounded in those lengths, symbolic in everything else).  All results of one op are written together, so they are simultaneously live:
+      * when a result is given a register (allocate_value on an `out`), no register of its class has been released yet in this call
+        - a released register could be handed straight back to that result while another result still occupies it;
+      * on return every register-typed, not yet handled `out` result has been replaced by an allocated value.
+    ValueAllocator.allocate_value / free_value are used through their discharged contracts (units AllocatorSpec), allocate_values_same_reg through a
+    trusted model (it never releases a register).
+    """
+
+    prop, file, qualname = PROP, RALLOC, "HasRegisterConstraints.allocate_registers"
+
+    def __init__(self):
+        from pyvc.engine import Res
+
+        spec = self
+
+        def is_out(x):
+            return z3.Or(*[x == o for o in spec.outs]) if spec.outs else z3.BoolVal(False)
+
+        def b_constraints(ex, st, args, kw):
+            mk = lambda zs: VTuple([VRef(z, "SSAValue") for z in zs])
+            return [Res("val", VTuple([mk(spec.ins), mk(spec.outs), VTuple([mk(g) for g in spec.inouts])]), st)]
+
+        def b_allocate_value(ex, st, args, kw):
+            x = args[0].z
+            t = VTYPE(x)
+            r_ = z3.Int("av!r")
+            ex.note_contract(spec._c_alloc)
+            needs = z3.And(z3.Not(st.ghost["HANDLED"][x]), ISREG(t), z3.Not(ALLOCD(t)))
+            ex.oblige(st, "call-pre", "allocate_value:no-register-of-its-class-has-been-released-before-a-result-gets-its-register",
+                      z3.Implies(z3.And(is_out(x), needs), forall([r_], z3.Implies(st.ghost["PUSHED"][r_], RCLASS(r_) != RCLASS(t)))), "property")
+            out = []
+            for yes, bs in ex.split(st, needs):
+                if not yes:
+                    out.append(Res("val", None, bs))
+                    continue
+                p_ = bs.fresh_int("popped_register")
+                nv = bs.fresh_int("new_value")
+                bs.assume(z3.And(p_ != 0, ISREG(p_), ALLOCD(p_), RCLASS(p_) == RCLASS(t), nv != 0, nv != x, VTYPE(nv) == p_))
+                bs.ghost["HANDLED"] = z3.Store(bs.ghost["HANDLED"], x, True)
+                bs.ghost["REPLACED"] = z3.Store(bs.ghost["REPLACED"], x, True)
+                out.append(Res("val", VRef(nv, "SSAValue"), bs))
+            return out
+
+        b_allocate_value.ghost_modifies = ["HANDLED", "REPLACED"]
+
+        def b_free_value(ex, st, args, kw):
+            ex.note_contract(spec._c_free)
+            t = VTYPE(args[0].z)
+            st.ghost["PUSHED"] = z3.If(z3.And(ISREG(t), ALLOCD(t)), z3.Store(st.ghost["PUSHED"], t, True), st.ghost["PUSHED"])
+            return [Res("val", None, st)]
+
+        b_free_value.ghost_modifies = ["PUSHED"]
+        self._c_alloc, self._c_free = AllocatorSpec("allocate_value"), AllocatorSpec("free_value")
+        self.calls = {"self.get_register_constraints": Builtin(b_constraints, "the op's (ins, outs, inouts) register values"),
+                      "allocator.allocate_value": Builtin(b_allocate_value, "contract of ValueAllocator.allocate_value (unit AllocatorSpec): handled / non-register / pre-assigned values are "
+                                                                            "left alone (None); otherwise one register of the value's class is popped and a new value of that type returned"),
+                      "allocator.free_value": Builtin(b_free_value, "contract of ValueAllocator.free_value (unit AllocatorSpec): pushes exactly the register of an allocated register-typed value"),
+                      "allocator.allocate_values_same_reg": Builtin(lambda ex, st, a, k: [Res("val", None, st)], "TRUSTED: allocates one register for a group of values; never releases one")}
+
+    def setup(self, st, inst):
+        mk = lambda tag, n: [st.declare_input(f"{tag}{j}", z3.Int(f"{tag}{j}")) for j in range(n)]
+        self.ins, self.outs = mk("in", inst["ins"]), mk("out", inst["outs"])
+        self.inouts = [mk(f"inout{g}_", 2) for g in range(inst["inouts"])]
+        SETB_ = z3.ArraySort(I, z3.BoolSort())
+        st.ghost["PUSHED"] = z3.K(I, z3.BoolVal(False))
+        st.ghost["HANDLED"] = z3.Const("HANDLED0", SETB_)
+        st.ghost["REPLACED"] = z3.K(I, z3.BoolVal(False))
+        self._handled0 = st.ghost["HANDLED"]
+        return {"self": VRef(z3.IntVal(1), "Operation"), "allocator": VRef(z3.IntVal(2), "BlockAllocator")}
+
+    def pre(self, st, a):
+        vals = self.ins + self.outs + [z for g in self.inouts for z in g]
+        return [A("values-are-objects", z3.And(*[v != 0 for v in vals]) if vals else z3.BoolVal(True)),
+                A("results-are-distinct-values-and-no-operand-of-the-op-is-one-of-its-results",
+                  z3.And(z3.Distinct(*self.outs) if len(self.outs) > 1 else z3.BoolVal(True),
+                         *[i != o for i in self.ins + [z for g in self.inouts for z in g] for o in self.outs]))]
+
+    def post(self, old, st, a, res):
+        return [C("every-unhandled-unallocated-register-result-has-been-given-an-allocated-replacement",
+                  z3.And(*[z3.Implies(z3.And(z3.Not(self._handled0[o]), ISREG(VTYPE(o)), z3.Not(ALLOCD(VTYPE(o)))), st.ghost["REPLACED"][o]) for o in self.outs])
+                  if self.outs else z3.BoolVal(True))]
+
+    def native_search(self, inst, seed):
+        r = N19.explore("quick", seed)
+        return r["failures"][0] if r["failures"] else None
+
+
 def make_specs(tier):
     specs = []
     for m in ("push", "pop", "reserve_register", "unreserve_register", "include_register", "exclude_register"):
@@ -446,6 +541,9 @@ def make_specs(tier):
         s = AllocatorSpec(m)
         s.instances = [{}]
         specs.append(s)
+    ar = AllocateRegisters()
+    ar.instances = [{"ins": i, "outs": o, "inouts": g} for o in range(0, 4) for i in range(0, 3) for g in range(0, 2)]
+    specs.append(ar)
     return specs
 
 
@@ -454,7 +552,9 @@ ASSUMPTIONS = [
     "different keys are independent objects)",
     "RegisterStack.reserve_register is called only for registers that are not available (its documented precondition)",
     "ValueAllocator.allocate_value / free_value are under contract with the register stack seen through ghost logs of pop/push calls; "
-    "ValueAllocator.allocate_values_same_reg (iteration and unpacking of a Python set), BlockNaiveAllocator.allocate_block, per-op allocate_registers and the x86 allocator are "
+    "HasRegisterConstraints.allocate_registers (the per-op step) is under contract for ops with <= 3 out, <= 2 in and <= 1 inout group values (loops unrolled: bounded in these "
+    "lengths, symbolic otherwise), with allocate_value / free_value replaced by their discharged contracts and allocate_values_same_reg by a trusted model (never releases a register); "
+    "ValueAllocator.allocate_values_same_reg (iteration and unpacking of a Python set), BlockNaiveAllocator.allocate_block, the overriding allocate_registers of loop / call ops and the x86 allocator are "
     "NOT under discharged contracts: the interference / pre-assignment / result-preservation clauses are decided by the bounded stand-in only (riscv, integer registers)",
     "reserve_registers is a @contextmanager generator (outside the subset): bounded only",
 ]
